@@ -6,6 +6,7 @@ use crate::runner::Ctx;
 pub mod c01;
 pub mod c02;
 pub mod c03;
+pub mod c04;
 pub mod c09;
 pub mod c10;
 pub mod c10_conn;
@@ -22,6 +23,7 @@ pub const REGISTRY: &[Entry] = &[
     Entry { id: "C01", run: c01::run, replay: c01::replay },
     Entry { id: "C02", run: c02::run, replay: c02::replay },
     Entry { id: "C03", run: c03::run, replay: c03::replay },
+    Entry { id: "C04", run: c04::run, replay: c04::replay },
     Entry { id: "C09", run: c09::run, replay: c09::replay },
     Entry { id: "C10", run: c10::run, replay: c10::replay },
     Entry { id: "SMOKE", run: smoke::run, replay: smoke::replay },
